@@ -3619,6 +3619,485 @@ fn case_backend_stream_limit(ctx: &mut Ctx, tls: &mut TlsCtx, n: u32, k: usize, 
     case
 }
 
+// ------------------------------- Content-Length vs DATA matrix (h2front, C03) --
+//
+// TLS HTTP/2 client -> sozu -> HTTP/1.1 backend that reads strictly by RFC 9112 framing
+// (Transfer-Encoding: chunked, else Content-Length - whatever the method -, else no body) and
+// records what it parsed. One scripted request per case: method x declared length x DATA split x
+// END_STREAM placement; then a follow-up request on the same client connection. Judged from the
+// property text, and compared with the Lean model behind C03_declared_length_enforced.
+
+#[derive(Clone, Debug)]
+struct ClCase {
+    method: &'static str,
+    /// declared Content-Length (None: no such field)
+    declared: Option<usize>,
+    /// DATA payload lengths, in order
+    frames: Vec<usize>,
+    /// "headers" (END_STREAM on HEADERS, no DATA), "last-data", "empty-data", "trailers"
+    end: &'static str,
+    rel: &'static str,
+}
+
+impl ClCase {
+    fn total(&self) -> usize {
+        self.frames.iter().sum()
+    }
+    /// the stream events of the Lean model (`recon` verb)
+    fn events(&self) -> String {
+        let mut ev: Vec<String> = vec![];
+        for (i, f) in self.frames.iter().enumerate() {
+            let last = i + 1 == self.frames.len();
+            ev.push(format!("d{}:{}", f, (last && self.end == "last-data") as u8));
+        }
+        match self.end {
+            "empty-data" => ev.push("d0:1".into()),
+            "trailers" => ev.push("t".into()),
+            _ => {}
+        }
+        if ev.is_empty() { "_".into() } else { ev.join(",") }
+    }
+    /// what the property text says must happen: Some(true) = must be refused (reset), Some(false) = must be served
+    fn must_reset(&self) -> bool {
+        match self.declared {
+            Some(n) => n != self.total(),
+            None => false,
+        }
+    }
+}
+
+fn cl_matrix_cases(thorough: bool) -> Vec<ClCase> {
+    let mut v = vec![];
+    let splits: [&[usize]; 3] = [&[6], &[2, 4], &[1, 2, 3]];
+    for (mi, method) in ["GET", "HEAD", "POST", "PUT", "DELETE", "OPTIONS", "PATCH"].iter().enumerate() {
+        // END_STREAM on HEADERS: no DATA at all
+        for (rel, d) in [("none", None), ("zero", Some(0usize)), ("larger", Some(5))] {
+            v.push(ClCase { method, declared: d, frames: vec![], end: "headers", rel });
+        }
+        for (si, split) in splits.iter().enumerate() {
+            for (ei, end) in ["last-data", "empty-data", "trailers"].iter().enumerate() {
+                let total: usize = split.iter().sum();
+                for (ri, (rel, d)) in [("none", None), ("zero", Some(0usize)), ("small", Some(1)), ("exact", Some(total)), ("larger", Some(total + 4)), ("smaller", Some(total - 2))].iter().enumerate() {
+                    // quick tier: a covering subset (every method meets every relation, split and placement)
+                    if !thorough && (mi + si + ei + ri) % 3 != 0 && !(*method == "HEAD" || (*method == "POST" && si == 0)) {
+                        continue;
+                    }
+                    v.push(ClCase { method, declared: *d, frames: split.to_vec(), end, rel });
+                }
+            }
+        }
+        // a headers-only request followed by an empty DATA frame with END_STREAM
+        for (rel, d) in [("none", None), ("zero", Some(0usize)), ("larger", Some(5))] {
+            v.push(ClCase { method, declared: d, frames: vec![], end: "empty-data", rel });
+        }
+    }
+    v
+}
+
+enum StrictNext {
+    Complete { start: String, body: Vec<u8>, used: usize },
+    /// the head is complete, the declared body is not
+    PartialBody { start: String, got: usize },
+    PartialHead,
+    Garbage(String),
+}
+
+/// one request by RFC 9112 framing from the front of `raw`
+fn strict_next(raw: &[u8]) -> StrictNext {
+    let Some(he) = find(raw, b"\r\n\r\n") else {
+        // whatever is there must at least start like a request line
+        let probe = &raw[..raw.len().min(8)];
+        if !probe.is_empty() && !probe.iter().all(|b| b.is_ascii_uppercase() || *b == b' ' || *b == b'/') && find(raw, b" ").map(|p| !raw[..p].iter().all(|b| b.is_ascii_uppercase())).unwrap_or(false) {
+            return StrictNext::Garbage(format!("not a request line: {:?}", String::from_utf8_lossy(&raw[..raw.len().min(60)])));
+        }
+        return StrictNext::PartialHead;
+    };
+    let head = String::from_utf8_lossy(&raw[..he]).to_string();
+    let mut lines = head.split("\r\n");
+    let start = lines.next().unwrap_or("").to_string();
+    let parts: Vec<&str> = start.split(' ').collect();
+    if parts.len() != 3 || !parts[2].starts_with("HTTP/1.") || parts[0].is_empty() || !parts[0].bytes().all(|b| b.is_ascii_uppercase()) || !parts[1].starts_with('/') {
+        return StrictNext::Garbage(format!("not a request line: {:?}", &start[..start.len().min(80)]));
+    }
+    let mut chunked = false;
+    let mut length: Option<usize> = None;
+    for l in lines {
+        let Some((n, v)) = l.split_once(':') else {
+            return StrictNext::Garbage(format!("malformed header line {l:?}"));
+        };
+        let v = v.trim();
+        if n.eq_ignore_ascii_case("transfer-encoding") {
+            chunked = v.eq_ignore_ascii_case("chunked");
+        } else if n.eq_ignore_ascii_case("content-length") {
+            match v.parse::<usize>() {
+                Ok(x) if length.is_none() || length == Some(x) => length = Some(x),
+                _ => return StrictNext::Garbage(format!("bad or conflicting content-length {v:?}")),
+            }
+        }
+    }
+    let mut p = he + 4;
+    if chunked {
+        let mut body = vec![];
+        loop {
+            let Some(le) = find(&raw[p..], b"\r\n").map(|x| p + x) else {
+                return StrictNext::PartialBody { start, got: body.len() };
+            };
+            let size_line = &raw[p..le];
+            let Some(n) = std::str::from_utf8(size_line).ok().filter(|t| !t.is_empty() && t.bytes().all(|b| b.is_ascii_hexdigit())).and_then(|t| usize::from_str_radix(t, 16).ok()) else {
+                return StrictNext::Garbage(format!("expected a chunk-size line, found {:?}", String::from_utf8_lossy(&size_line[..size_line.len().min(40)])));
+            };
+            p = le + 2;
+            if n == 0 {
+                loop {
+                    let Some(te) = find(&raw[p..], b"\r\n").map(|x| p + x) else {
+                        return StrictNext::PartialBody { start, got: body.len() };
+                    };
+                    if te == p {
+                        p += 2;
+                        break;
+                    }
+                    if !raw[p..te].contains(&b':') {
+                        return StrictNext::Garbage(format!("malformed trailer line {:?}", String::from_utf8_lossy(&raw[p..te])));
+                    }
+                    p = te + 2;
+                }
+                return StrictNext::Complete { start, body, used: p };
+            }
+            if raw.len() < p + n + 2 {
+                return StrictNext::PartialBody { start, got: body.len() + raw.len().saturating_sub(p).min(n) };
+            }
+            if &raw[p + n..p + n + 2] != b"\r\n" {
+                return StrictNext::Garbage(format!("chunk of {n} bytes not followed by CRLF"));
+            }
+            body.extend_from_slice(&raw[p..p + n]);
+            p += n + 2;
+        }
+    }
+    let n = length.unwrap_or(0);
+    if raw.len() < p + n {
+        return StrictNext::PartialBody { start, got: raw.len() - p };
+    }
+    StrictNext::Complete { start, body: raw[p..p + n].to_vec(), used: p + n }
+}
+
+/// what one backend connection held, read strictly
+#[derive(Default, Debug)]
+struct StrictConn {
+    complete: Vec<(String, Vec<u8>)>,
+    /// `(start line, body bytes received)` of a request whose body never completed
+    partial: Option<(String, usize)>,
+    garbage: Option<String>,
+    partial_head: usize,
+}
+
+fn strict_all(raw: &[u8]) -> StrictConn {
+    let mut c = StrictConn::default();
+    let mut pos = 0usize;
+    while pos < raw.len() {
+        match strict_next(&raw[pos..]) {
+            StrictNext::Complete { start, body, used } => {
+                c.complete.push((start, body));
+                pos += used;
+            }
+            StrictNext::PartialBody { start, got } => {
+                c.partial = Some((start, got));
+                break;
+            }
+            StrictNext::PartialHead => {
+                c.partial_head = raw.len() - pos;
+                break;
+            }
+            StrictNext::Garbage(g) => {
+                c.garbage = Some(g);
+                break;
+            }
+        }
+    }
+    c
+}
+
+struct ClObs {
+    line: String,
+    case: String,
+    reset: bool,
+    done: bool,
+    backend_body: usize,
+    has_events: bool,
+}
+
+fn case_cl_matrix(ctx: &mut Ctx, tls: &mut TlsCtx, cc: &ClCase, fails: &mut Vec<Fail>, dist: &mut BTreeMap<String, u64>) -> Option<ClObs> {
+    use std::io::Write;
+    let (path, _cid, be) = route_tls(ctx, tls, "q", false);
+    let case = format!("cl-matrix path={path} {} content-length={:?} ({}) DATA={:?} end-stream-on={}", cc.method, cc.declared, cc.rel, cc.frames, cc.end);
+    *dist.entry(format!("cl-matrix:{}:{}", cc.method, cc.rel)).or_insert(0) += 1;
+    let stop = std::sync::Arc::new(std::sync::atomic::AtomicBool::new(false));
+    let raws: std::sync::Arc<std::sync::Mutex<Vec<Vec<u8>>>> = Default::default();
+    let (stop_b, raws_b) = (stop.clone(), raws.clone());
+    // strict backend: answers a request when it is complete by its own framing, or 120 ms after its
+    // head when the declared body does not come (then goes on reading that body, as servers do)
+    let bt = std::thread::spawn(move || {
+        let mut handlers = vec![];
+        while !stop_b.load(std::sync::atomic::Ordering::Relaxed) {
+            if let Ok(mut b) = be.accept(Duration::from_millis(15)) {
+                let (stop_c, raws_c) = (stop_b.clone(), raws_b.clone());
+                handlers.push(std::thread::spawn(move || {
+                    let mut answered = 0usize;
+                    let mut pending_since: Option<Instant> = None;
+                    loop {
+                        let end = b.read_some(Duration::from_millis(8));
+                        let sc = strict_all(&b.received);
+                        let mut due = sc.complete.len().saturating_sub(answered);
+                        if due == 0 && sc.complete.len() == answered && sc.partial.is_some() {
+                            match pending_since {
+                                None => pending_since = Some(Instant::now()),
+                                Some(t) if t.elapsed() > Duration::from_millis(120) => {
+                                    due = 1;
+                                    pending_since = None;
+                                }
+                                _ => {}
+                            }
+                        } else if sc.partial.is_none() {
+                            pending_since = None;
+                        }
+                        for _ in 0..due {
+                            if b.write_all(b"HTTP/1.1 200 OK\r\nContent-Length: 0\r\n\r\n", T).is_err() {
+                                break;
+                            }
+                            answered += 1;
+                        }
+                        if stop_c.load(std::sync::atomic::Ordering::Relaxed) || matches!(end, ReadEnd::Closed | ReadEnd::Reset) {
+                            break;
+                        }
+                    }
+                    if let Ok(mut g) = raws_c.lock() {
+                        g.push(b.received.clone());
+                    }
+                }));
+            }
+        }
+        for h in handlers {
+            let _ = h.join();
+        }
+    });
+    let done = |stop: &std::sync::Arc<std::sync::atomic::AtomicBool>| stop.store(true, std::sync::atomic::Ordering::Relaxed);
+    let st = match tls_front(tls.front, Duration::from_millis(8)) {
+        Ok(s) => s,
+        Err(e) => {
+            done(&stop);
+            let _ = bt.join();
+            fails.push(Fail { class: "h2front-transfer-failed".into(), detail: format!("tls connect: {e:?}"), case: case.clone() });
+            return None;
+        }
+    };
+    let mut cl = LedgerClient {
+        st, rx: vec![], pos: 0, enc: loona_hpack::Encoder::new(), dec: loona_hpack::Decoder::new(), peer_init: 65535, conn_avail: 65535,
+        stream_avail: BTreeMap::new(), conn_credit: 0, sent_total: 0, data_started: false, full_window: 65535, rst: BTreeMap::new(),
+        status: BTreeMap::new(), ended: Default::default(), goaway: None, settings_seen: false, settings_acked: false, closed: None, out: vec![],
+        bodies: BTreeMap::new(),
+    };
+    let mut hello = b"PRI * HTTP/2.0\r\n\r\nSM\r\n\r\n".to_vec();
+    hello.extend_from_slice(&settings_frame(&[(4, 1 << 20)]));
+    if cl.st.write_all(&hello).and_then(|_| cl.st.flush()).is_err() {
+        done(&stop);
+        let _ = bt.join();
+        fails.push(Fail { class: "h2front-transfer-failed".into(), detail: "write hello".into(), case: case.clone() });
+        return None;
+    }
+    let t_hs = Instant::now();
+    while !(cl.settings_seen && cl.settings_acked) && t_hs.elapsed() < Duration::from_secs(3) && !cl.over() {
+        cl.pump();
+    }
+    // ---- the request under test (stream 1)
+    let p1 = format!("{path}/t");
+    let body: Vec<u8> = (0..cc.total()).map(|i| b'a' + (i % 26) as u8).collect();
+    let cls = cc.declared.map(|d| d.to_string());
+    let mut hs: Vec<(&[u8], &[u8])> = vec![(b":method", cc.method.as_bytes()), (b":scheme", b"https"), (b":path", p1.as_bytes()), (b":authority", b"localhost")];
+    if let Some(c) = &cls {
+        hs.push((b"content-length", c.as_bytes()));
+    }
+    if cc.end == "trailers" {
+        hs.push((b"te", b"trailers"));
+    }
+    let blk = cl.enc.encode(hs);
+    cl.out.extend_from_slice(&frame(1, 4 | (cc.end == "headers") as u8, 1, &blk));
+    let mut off = 0usize;
+    for (i, f) in cc.frames.iter().enumerate() {
+        let last = i + 1 == cc.frames.len();
+        cl.out.extend_from_slice(&frame(0, (last && cc.end == "last-data") as u8, 1, &body[off..off + f]));
+        off += f;
+    }
+    match cc.end {
+        "empty-data" => cl.out.extend_from_slice(&frame(0, 1, 1, &[])),
+        "trailers" => {
+            let tb = cl.enc.encode(vec![(&b"x-checksum"[..], &b"abc123"[..])]);
+            cl.out.extend_from_slice(&frame(1, 4 | 1, 1, &tb));
+        }
+        _ => {}
+    }
+    cl.flush();
+    let d1 = Instant::now() + Duration::from_millis(500);
+    while !(cl.ended.contains(&1) || cl.rst.contains_key(&1) || cl.over()) && Instant::now() < d1 {
+        cl.pump();
+    }
+    // ---- follow-up on the same client connection (stream 3): exposes a desynchronised backend connection
+    let p3 = format!("{path}/f");
+    let fbody = b"follow-up-body";
+    let mut follow_sent = false;
+    if !cl.over() {
+        let fl = fbody.len().to_string();
+        let hs: Vec<(&[u8], &[u8])> = vec![(b":method", b"POST"), (b":scheme", b"https"), (b":path", p3.as_bytes()), (b":authority", b"localhost"), (b"content-length", fl.as_bytes())];
+        let blk = cl.enc.encode(hs);
+        cl.out.extend_from_slice(&frame(1, 4, 3, &blk));
+        cl.out.extend_from_slice(&frame(0, 1, 3, fbody));
+        cl.flush();
+        follow_sent = true;
+        let d3 = Instant::now() + Duration::from_millis(600);
+        while !(cl.ended.contains(&3) || cl.rst.contains_key(&3) || cl.over()) && Instant::now() < d3 {
+            cl.pump();
+        }
+    }
+    done(&stop);
+    let _ = bt.join();
+    let conns: Vec<StrictConn> = raws.lock().map(|g| g.iter().map(|r| strict_all(r)).collect()).unwrap_or_default();
+    let st1 = cl.status.get(&1).cloned();
+    let reset1 = cl.rst.contains_key(&1) || (cl.goaway.is_some() && !cl.ended.contains(&1));
+    let done1 = cl.ended.contains(&1) && !cl.rst.contains_key(&1) && st1.as_deref().map(|s| s.starts_with('2')).unwrap_or(false);
+    let client = format!(
+        "client: stream 1 {}{}{}, follow-up stream 3 {}{}{}",
+        st1.as_ref().map(|s| format!(":status {s}")).unwrap_or_else(|| "no response".into()),
+        if cl.ended.contains(&1) { " END_STREAM" } else { "" },
+        cl.rst.get(&1).map(|c| format!(" RST_STREAM({c})")).unwrap_or_default(),
+        cl.status.get(&3).map(|s| format!(":status {s}")).unwrap_or_else(|| "no response".into()),
+        cl.rst.get(&3).map(|c| format!(" RST_STREAM({c})")).unwrap_or_default(),
+        cl.goaway.map(|(l, c)| format!("; GOAWAY(last={l}, error={c})")).unwrap_or_default()
+    );
+    let backend = format!(
+        "backend ({} connection(s)): {}",
+        conns.len(),
+        conns.iter().map(|c| format!(
+            "[{}{}{}{}]",
+            c.complete.iter().map(|(s, b)| format!("{s} +{}B", b.len())).collect::<Vec<_>>().join(", "),
+            c.partial.as_ref().map(|(s, g)| format!(" | incomplete: {s} +{g}B")).unwrap_or_default(),
+            c.garbage.as_ref().map(|g| format!(" | NOT HTTP: {g}")).unwrap_or_default(),
+            if c.partial_head > 0 { format!(" | {} bytes of an unfinished head", c.partial_head) } else { String::new() }
+        )).collect::<Vec<_>>().join(" ")
+    );
+    let mut push = |class: &str, what: String| fails.push(Fail { class: class.into(), detail: format!("{what}; {client}; {backend}"), case: case.clone() });
+    // the two open trailer findings (trailer lines written without the last-chunk / after a
+    // Content-Length body) spoil everything else the case could show: reported under their own classes
+    if cc.end == "trailers" && conns.iter().any(|c| c.garbage.as_deref().map(|g| g.contains("x-checksum")).unwrap_or(false)) {
+        let class = if cc.declared.is_some() { "c03-trailers-after-length-body" } else { "c03-trailers-without-last-chunk" };
+        push(class, "the trailer field line reaches the backend where a strict reader expects a chunk-size line or the next request".into());
+        if cc.must_reset() && done1 {
+            push("c03-length-mismatch-not-reset", format!("declared Content-Length {:?}, DATA total {}: the stream ended with a 2xx instead of being reset", cc.declared, cc.total()));
+        }
+        return None;
+    }
+    // (a) a stream whose DATA total differs from its declared length never ends un-reset
+    if cc.must_reset() && done1 {
+        push("c03-length-mismatch-not-reset", format!("declared Content-Length {:?}, DATA total {}: the stream ended with a 2xx instead of being reset", cc.declared, cc.total()));
+    }
+    if !cc.must_reset() && !done1 {
+        push("c03-well-formed-request-not-served", format!("declared Content-Length {:?} equals the DATA total {} (or none declared): the request was not answered 2xx", cc.declared, cc.total()));
+    }
+    // (b) what the backend parsed is exactly what the client completed; (c) never more body than declared
+    let t_line = format!("{} {p1} HTTP/1.1", cc.method);
+    let f_line = format!("POST {p3} HTTP/1.1");
+    let mut seen_t = 0usize;
+    let mut seen_f = 0usize;
+    let mut backend_body = 0usize;
+    for c in &conns {
+        if let Some(g) = &c.garbage {
+            push("c03-backend-connection-desynchronised", format!("a strict reader finds bytes that are no request on a backend connection: {g}"));
+        }
+        for (s, b) in &c.complete {
+            if *s == t_line {
+                seen_t += 1;
+                backend_body = backend_body.max(b.len());
+                let want: &[u8] = &body[..b.len().min(body.len())];
+                if b.len() > body.len() || &b[..] != want {
+                    push("c03-request-body-differs-at-backend", format!("the backend read a body of {} bytes for the tested request that is not a prefix of the {} bytes the client sent", b.len(), body.len()));
+                }
+                if let Some(d) = cc.declared {
+                    if b.len() > d {
+                        push("c03-more-body-than-declared", format!("{} body bytes forwarded, {d} declared", b.len()));
+                    }
+                }
+                if !done1 && !(cc.declared.map(|d| d == b.len() && cc.total() >= d).unwrap_or(false)) {
+                    push("c03-unfinished-request-complete-at-backend", format!("the client's stream did not end un-reset, yet a strict reader sees a complete request with {} body bytes", b.len()));
+                }
+            } else if *s == f_line {
+                seen_f += 1;
+                if &b[..] != fbody {
+                    push("c03-request-body-differs-at-backend", format!("follow-up body at the backend: {:?}", String::from_utf8_lossy(b)));
+                }
+            } else {
+                push("c03-request-never-sent-at-backend", format!("the backend parsed a request the client never sent: {s:?}"));
+            }
+        }
+        if let Some((s, got)) = &c.partial {
+            if *s == t_line {
+                backend_body = backend_body.max(*got);
+                if done1 {
+                    push("c03-completed-request-incomplete-at-backend", format!("the client got a 2xx, a strict reader is still waiting for the body ({got} bytes so far)"));
+                }
+                if let Some(d) = cc.declared {
+                    if *got > d {
+                        push("c03-more-body-than-declared", format!("{got} body bytes forwarded, {d} declared"));
+                    }
+                }
+            } else if *s != f_line {
+                push("c03-request-never-sent-at-backend", format!("the backend holds the head of a request the client never sent: {s:?}"));
+            }
+        }
+    }
+    if done1 && seen_t != 1 {
+        push("c03-completed-request-not-at-backend", format!("the client got a 2xx for the tested request, the backend parsed it {seen_t} times"));
+    }
+    if seen_t > 1 || seen_f > 1 {
+        push("c03-request-duplicated-at-backend", format!("tested request x{seen_t}, follow-up x{seen_f}"));
+    }
+    // GOAWAY with a last-stream-id below 3: sozu tells the client that the follow-up was not processed
+    // (a trailer HEADERS frame that arrives after the stream was reset is a connection error, RFC 9113 5.1)
+    let follow_unprocessed = cl.goaway.map(|(last, _)| last < 3).unwrap_or(false);
+    if follow_sent && !follow_unprocessed {
+        let ok3 = cl.ended.contains(&3) && cl.status.get(&3).map(|s| s == "200").unwrap_or(false);
+        if !ok3 || seen_f != 1 {
+            push("c03-follow-up-request-lost", format!("the well-formed follow-up request on the same client connection was {} and parsed {seen_f} time(s) by the backend", if ok3 { "answered 200" } else { "not answered 200" }));
+        }
+    }
+    Some(ClObs { line: format!("recon {} 0 {}", cc.declared.map(|d| d.to_string()).unwrap_or_else(|| "~".into()), cc.events()), case, reset: reset1, done: done1, backend_body, has_events: cc.events() != "_" })
+}
+
+/// compare every observed case with the Lean model of the reconciliation (`rrun`)
+fn cl_matrix_model(driver: &str, obs: &[ClObs], fails: &mut Vec<Fail>, dist: &mut BTreeMap<String, u64>) {
+    let with: Vec<&ClObs> = obs.iter().filter(|o| o.has_events).collect();
+    if driver.is_empty() {
+        dist.insert("cl-matrix:model-not-consulted".into(), with.len() as u64);
+        return;
+    }
+    let input: String = with.iter().map(|o| format!("{}\n", o.line)).collect();
+    let out = verif_harness::run_model(driver, &input);
+    for (o, l) in with.iter().zip(out.iter()) {
+        let get = |k: &str| l.split_whitespace().find_map(|w| w.strip_prefix(&format!("{k}="))).and_then(|v| v.parse::<usize>().ok());
+        let (Some(fw), Some(dn), Some(rs)) = (get("forwarded"), get("done"), get("reset")) else {
+            fails.push(Fail { class: "c03-length-model-disagrees".into(), detail: format!("model answered {l:?} to {:?}", o.line), case: o.case.clone() });
+            continue;
+        };
+        *dist.entry("cl-matrix:model-compared".into()).or_insert(0) += 1;
+        if (dn == 1) != o.done || (rs == 1) != o.reset || o.backend_body > fw || (dn == 1 && o.backend_body != fw) {
+            fails.push(Fail {
+                class: "c03-length-model-disagrees".into(),
+                detail: format!("model ({}): forwarded={fw} done={dn} reset={rs}; observed: done={} reset={} body bytes at the backend={}", o.line, o.done, o.reset, o.backend_body),
+                case: o.case.clone(),
+            });
+        }
+    }
+    if out.len() < with.len() {
+        fails.push(Fail { class: "c03-length-model-disagrees".into(), detail: format!("model answered {} of {} lines", out.len(), with.len()), case: "-".into() });
+    }
+}
+
 fn hpack_scenarios() -> Vec<(&'static str, Option<u32>, Vec<HpStep>)> {
     let r = |set: usize| HpStep::Request { set, body: 2, during: None };
     vec![
@@ -3764,6 +4243,27 @@ fn main() {
                     ctx.w.stop();
                     finish(&args, evaluations, &dist, &samples, &mut fails, &known_witnesses, &guard, t0);
                     return;
+                }
+                if args.prop == "C03" || family == "cl-matrix" {
+                    let t_cl = Instant::now();
+                    let mut obs: Vec<ClObs> = vec![];
+                    for cc in cl_matrix_cases(thorough) {
+                        let o = guarded(&mut guard, "cl-matrix", &mut fails, &mut dist, |fails, dist| case_cl_matrix(&mut ctx, &mut t, &cc, fails, dist));
+                        evaluations += 1;
+                        if let Some(Some(o)) = o {
+                            if samples.len() < 2 {
+                                samples.push(json!({"case": o.case, "model": o.line}));
+                            }
+                            obs.push(o);
+                        }
+                    }
+                    cl_matrix_model(&args.driver, &obs, &mut fails, &mut dist);
+                    dist.insert("cl_matrix_wall_ms".into(), t_cl.elapsed().as_millis() as u64);
+                    if family == "cl-matrix" {
+                        ctx.w.stop();
+                        finish(&args, evaluations, &dist, &samples, &mut fails, &known_witnesses, &guard, t0);
+                        return;
+                    }
                 }
                 for spec in h2front_specs(&mut frng, &args.prop) {
                     let case = guarded(&mut guard, &format!("h2front[{}]", spec.name), &mut fails, &mut dist, |fails, dist| case_h2front(&mut ctx, &mut t, &spec, &args.prop, fails, dist));
